@@ -537,6 +537,181 @@ func collectPanicObligations(c *Ctx, li *LockInfo, fns map[*ssa.Function]bool, v
 					} else {
 						add(in, "stdlib", n[strings.LastIndex(n, ".")+1:]+"("+describe(d)+")", false, "duration not provably > 0 at this site")
 					}
+				case "(*encoding/base64.Encoding).Decode", "(*encoding/base64.Encoding).Encode", "encoding/hex.Decode", "encoding/hex.Encode":
+					// writes DecodedLen/EncodedLen(len(src)) bytes into dst and panics if dst is shorter
+					args := callArgs(x)
+					dst, src := args[len(args)-2], args[len(args)-1]
+					lenFn := map[string]string{"(*encoding/base64.Encoding).Decode": "(*encoding/base64.Encoding).DecodedLen", "(*encoding/base64.Encoding).Encode": "(*encoding/base64.Encoding).EncodedLen", "encoding/hex.Decode": "encoding/hex.DecodedLen", "encoding/hex.Encode": "encoding/hex.EncodedLen"}[n]
+					sized := false
+					if mk, ok := resolveVal(dst).(*ssa.MakeSlice); ok {
+						if lc, ok := unconvNum(mk.Len).(*ssa.Call); ok && calleeName(lc) == lenFn {
+							la := callArgs(lc)
+							if inner, isLen := lenOf(la[len(la)-1]); isLen && sameVal(inner, src) {
+								sized = true
+							}
+						}
+					}
+					if sized {
+						add(in, "stdlib", n[strings.LastIndex(n, ".")+1:]+" into dst", true, "dst is make([]byte, "+lenFn[strings.LastIndex(lenFn, ".")+1:]+"(len(src)))")
+					} else {
+						add(in, "stdlib", n[strings.LastIndex(n, ".")+1:]+" into dst", false, n+" panics (index out of range) when dst is shorter than the decoded/encoded length of src; dst is not sized from len(src) here — a longer input than expected aborts instead of being rejected")
+					}
+				case "golang.org/x/crypto/argon2.IDKey", "golang.org/x/crypto/argon2.Key":
+					// panics if time < 1 or threads < 1
+					args := callArgs(x)
+					posArg := func(a ssa.Value) (bool, string) {
+						if k, isC := constInt(unconvNum(a)); isC && k > 0 {
+							return true, "positive constant"
+						}
+						if ok, why := positiveAt(f, in, a); ok {
+							return true, why
+						}
+						// a field of a struct all of whose assignments in the module store a positive value
+						if u, ok := unconvNum(a).(*ssa.UnOp); ok && u.Op == token.MUL {
+							if fa, ok := u.X.(*ssa.FieldAddr); ok {
+								if fv, _, is := fieldOf(fa); is {
+									okF, n, bad := fieldAlwaysPositive(li, fv)
+									if okF {
+										return true, fmt.Sprintf("type invariant: all %d assignments to %s in the module store a value > 0 (a zero-valued struct is excluded only by the callers' error checks)", n, fv.Name())
+									}
+									return false, "field " + fv.Name() + " can be assigned a value that is not provably > 0 at " + bad
+								}
+							}
+						}
+						return false, ""
+					}
+					okT, whyT := posArg(args[2])
+					okP, whyP := posArg(args[4])
+					if okT && okP {
+						add(in, "stdlib", "argon2 parameters", true, whyT+"; "+whyP)
+					} else {
+						add(in, "stdlib", "argon2 parameters", false, "argon2 panics when the number of passes or the parallelism is 0; neither is provably > 0 at this call")
+					}
+				case "crypto/rand.Int", "math/rand.Intn", "math/rand.Int63n", "math/rand.Int31n", "math/rand/v2.IntN", "math/rand/v2.N":
+					args := callArgs(x)
+					lim := args[len(args)-1]
+					okL := false
+					if k, isC := constInt(lim); isC && k > 0 {
+						okL = true
+					}
+					// big.Int limit built as new(big.Int).Lsh(big.NewInt(k>0), n)
+					if c2, ok := resolveVal(lim).(*ssa.Call); ok && calleeName(c2) == "(*math/big.Int).Lsh" {
+						if c3, ok := resolveVal(callArgs(c2)[1]).(*ssa.Call); ok && calleeName(c3) == "math/big.NewInt" {
+							if k, isC := constInt(callArgs(c3)[0]); isC && k > 0 {
+								okL = true
+							}
+						}
+					}
+					add(in, "stdlib", n[strings.LastIndex(n, ".")+1:]+" limit", okL, map[bool]string{true: "limit is a positive constant", false: n + " panics for a limit <= 0 and the limit is not a positive constant"}[okL])
+				case "(reflect.Value).Elem":
+					recv := callArgs(x)[0]
+					fs := factStrs(f, in)
+					okK := false
+					for k := range fs {
+						if strings.HasPrefix(k, "Kind("+atomStr(recv)+")==") && (strings.HasSuffix(k, "==22=true") || strings.HasSuffix(k, "==20=true")) {
+							okK = true
+						}
+					}
+					add(in, "reflect", "Elem()", okK, map[bool]string{true: "on the Kind()==Pointer/Interface edge of the same value", false: "reflect.Value.Elem panics unless the value is a pointer or interface; no dominating Kind() test on the same value"}[okK])
+				case "(reflect.Value).NumField", "(reflect.Value).Field", "(reflect.Value).Addr", "(reflect.Value).Interface", "(reflect.Type).Field", "(reflect.Value).Set", "(reflect.Value).SetString", "(reflect.Value).SetInt", "(reflect.Value).Index", "(reflect.Value).MapIndex", "(reflect.Value).Len":
+					recv := callArgs(x)[0]
+					fs := factStrs(f, in)
+					okK, why := false, ""
+					a := atomStr(recv)
+					switch n {
+					case "(reflect.Value).NumField", "(reflect.Value).Field":
+						for k := range fs {
+							if k == "Kind("+a+")==25=true" {
+								okK, why = true, "on the Kind()==Struct edge of the same value"
+							}
+						}
+						if !okK && n == "(reflect.Value).Field" {
+							// index bounded by NumField of the same value
+							for k := range fs {
+								if strings.Contains(k, "<NumField("+a+")=true") {
+									okK, why = true, "index < NumField() of the same value (NumField carries the struct obligation)"
+								}
+							}
+						}
+					case "(reflect.Type).Field":
+						for k := range fs {
+							if strings.Contains(k, "<NumField(") && strings.HasSuffix(k, "=true") {
+								okK, why = true, "index < NumField() of the value this type was taken from"
+							}
+						}
+					case "(reflect.Value).Addr":
+						for k := range fs {
+							if k == "CanAddr("+a+")=true" {
+								okK, why = true, "on the CanAddr() edge of the same value"
+							}
+						}
+					case "(reflect.Value).Interface":
+						for k := range fs {
+							if k == "CanInterface("+a+")=true" {
+								okK, why = true, "on the CanInterface() edge of the same value"
+							}
+						}
+					}
+					if !okK {
+						sh := reflectShape(li, recv, map[ssa.Value]bool{})
+						switch n {
+						case "(reflect.Value).NumField", "(reflect.Value).Field":
+							if sh == "struct" {
+								okK, why = true, "the value is the pointee of a pointer-to-struct on every call path (reflect.ValueOf(*T) / Addr() of a Kind()==Struct field)"
+							}
+						case "(reflect.Value).Addr":
+							if sh == "struct" || sh == "field" {
+								okK, why = true, "field of a struct reached through a pointer: addressable"
+							}
+						case "(reflect.Value).Interface":
+							// CanInterface on the value Addr() was taken from carries over (the read-only flag is inherited)
+							if c2, ok := resolveVal(recv).(*ssa.Call); ok && calleeName(c2) == "(reflect.Value).Addr" {
+								if fs["CanInterface("+atomStr(callArgs(c2)[0])+")=true"] {
+									okK, why = true, "on the CanInterface() edge of the value whose address is taken"
+								}
+							}
+							if !okK && !reflectRootsAllExported(li, f) {
+								// a reviewed table entry for this site presupposes the type-level fact; without it the key changes
+								add(in, "reflect", "Interface() [reached with values outside the exported Config tree]", false, "reflect.Value.Interface panics on unexported fields; this function is reached with values whose struct tree (outside the ConfigProp leaves) has unexported fields, or whose root is not reflect.ValueOf(*config.Config)")
+								return
+							}
+						}
+					}
+					if !okK {
+						why = n + " panics when the value has the wrong kind / is not addressable / is an unexported field; no dominating test on the same value"
+					}
+					add(in, "reflect", strings.TrimPrefix(n[strings.LastIndex(n, ".")+1:], ")")+"()", okK, why)
+				case "(*sync/atomic.Value).Store", "(*sync/atomic.Value).Swap", "(*sync/atomic.Value).CompareAndSwap":
+					// panics on a nil interface and on a dynamic type different from the first stored one
+					args := callArgs(x)
+					v := args[len(args)-1]
+					okV, why := false, "atomic.Value panics when given nil or a value of another concrete type than before"
+					if mi, ok := v.(*ssa.MakeInterface); ok {
+						if _, isIface := mi.X.Type().Underlying().(*types.Interface); !isIface {
+							okV, why = true, "boxes a value of the static non-interface type "+types.TypeString(mi.X.Type(), func(p *types.Package) string { return p.Name() })+": never nil; one concrete type per (generic) owner"
+						}
+					}
+					add(in, "stdlib", "atomic.Value."+n[strings.LastIndex(n, ".")+1:], okV, why)
+				case "context.WithoutCancel", "(*net/http.Request).WithContext", "(*net/http.Request).Clone", "context.WithCancel", "context.WithTimeout", "context.WithValue", "context.WithDeadline":
+					args := callArgs(x)
+					idx := 0
+					if strings.HasPrefix(n, "(*net/http.Request)") {
+						idx = 1
+					}
+					ctxv := resolveVal(args[idx])
+					okC, why := false, n+" panics on a nil context and the argument is not the result of a context constructor"
+					if c2, ok := ctxv.(*ssa.Call); ok {
+						cn := calleeName(c2)
+						if strings.HasPrefix(cn, "context.") || cn == "(*net/http.Request).Context" {
+							okC, why = true, "argument is the result of "+cn+" (never nil)"
+						}
+					}
+					if ex, ok := ctxv.(*ssa.Extract); ok {
+						if c2, ok := ex.Tuple.(*ssa.Call); ok && strings.HasPrefix(calleeName(c2), "context.") {
+							okC, why = true, "argument is the result of "+calleeName(c2)+" (never nil)"
+						}
+					}
+					add(in, "stdlib", n[strings.LastIndex(n, ".")+1:]+"(ctx)", okC, why)
 				case "builtin.close":
 					add(in, "close", "close("+describe(x.Common().Args[0])+")", false, "close of a channel that could already be closed")
 				case "strings.Repeat":
@@ -1113,4 +1288,221 @@ func clearedBetween(li *LockInfo, fn *ssa.Function, guard, site ssa.Instruction)
 		}
 	})
 	return found
+}
+
+// fieldAlwaysPositive: every store into struct field fv anywhere in the module stores a constant > 0
+// or a value that the branch facts at the store show to be non-zero / positive.
+func fieldAlwaysPositive(li *LockInfo, fv *types.Var) (bool, int, string) {
+	n, bad := 0, ""
+	for _, g := range li.Fns {
+		eachInstr(g, func(in ssa.Instruction) {
+			st, ok := in.(*ssa.Store)
+			if !ok {
+				return
+			}
+			fa, ok := st.Addr.(*ssa.FieldAddr)
+			if !ok {
+				return
+			}
+			v2, _, is := fieldOf(fa)
+			if !is || v2 != fv {
+				return
+			}
+			n++
+			if k, isC := constInt(unconvNum(st.Val)); isC {
+				if k <= 0 {
+					bad = li.c.InstrPos(st)
+				}
+				return
+			}
+			a := atomStr(st.Val)
+			fs := factStrs(g, st)
+			if fs[a+"==0=false"] || fs[a+">0=true"] || fs[a+"!=0=true"] {
+				return
+			}
+			bad = li.c.InstrPos(st)
+		})
+	}
+	return bad == "" && n > 0, n, bad
+}
+
+// reflectShape: a small abstract value for reflect.Value-typed SSA values:
+//   "ptr"    a pointer to a struct (reflect.ValueOf(*T), or Addr() of a value tested Kind()==Struct)
+//   "struct" the addressable struct such a pointer points to
+//   "field"  a field of such a struct (addressable)
+//   ""       unknown
+// Parameters take the shape common to all module call sites (assumed while checking recursion).
+func reflectShape(li *LockInfo, v ssa.Value, assume map[ssa.Value]bool) string {
+	v = resolveVal(v)
+	if assume[v] {
+		return "ptr"
+	}
+	switch x := v.(type) {
+	case *ssa.Call:
+		args := callArgs(x)
+		switch calleeName(x) {
+		case "reflect.ValueOf":
+			if mi, ok := args[0].(*ssa.MakeInterface); ok {
+				if p, ok := mi.X.Type().Underlying().(*types.Pointer); ok {
+					if _, ok := p.Elem().Underlying().(*types.Struct); ok {
+						return "ptr"
+					}
+				}
+			}
+		case "(reflect.Value).Addr":
+			fs := factStrs(x.Parent(), x)
+			if fs["Kind("+atomStr(args[0])+")==25=true"] {
+				return "ptr"
+			}
+		case "(reflect.Value).Elem":
+			if reflectShape(li, args[0], assume) == "ptr" {
+				return "struct"
+			}
+		case "(reflect.Value).Field":
+			if reflectShape(li, args[0], assume) == "struct" {
+				return "field"
+			}
+		}
+	case *ssa.Phi:
+		// `if v.Kind() == Pointer { v = v.Elem() }` on a value that is always a pointer
+		sh := ""
+		for _, e := range x.Edges {
+			es := reflectShape(li, e, assume)
+			if es == "ptr" {
+				// the edge on which a pointer was NOT dereferenced is infeasible if it is guarded by Kind()==Pointer being false
+				continue
+			}
+			if es == "" || (sh != "" && sh != es) {
+				return ""
+			}
+			sh = es
+		}
+		// the skipped "ptr" edges must be exactly the not-a-pointer side of a Kind()==Pointer test on that value
+		for i, e := range x.Edges {
+			if reflectShape(li, e, assume) != "ptr" {
+				continue
+			}
+			pred := x.Block().Preds[i]
+			ok := false
+			if iff, isIf := pred.Instrs[len(pred.Instrs)-1].(*ssa.If); isIf {
+				if bo, isB := iff.Cond.(*ssa.BinOp); isB && bo.Op == token.EQL {
+					if k, isC := constInt(bo.Y); isC && k == 22 {
+						if kc, isK := bo.X.(*ssa.Call); isK && calleeName(kc) == "(reflect.Value).Kind" && sameVal(callArgs(kc)[0], e) && pred.Succs[1] == x.Block() {
+							ok = true
+						}
+					}
+				}
+			}
+			if !ok {
+				return ""
+			}
+		}
+		return sh
+	case *ssa.Parameter:
+		f := x.Parent()
+		idx := -1
+		for i, p := range f.Params {
+			if p == x {
+				idx = i
+			}
+		}
+		cs := li.Callers[f]
+		if len(cs) == 0 || idx < 0 {
+			return ""
+		}
+		as := map[ssa.Value]bool{x: true}
+		for k := range assume {
+			as[k] = true
+		}
+		for _, site := range cs {
+			call, ok := asCall(site.in)
+			if !ok {
+				return ""
+			}
+			a := callArgs(call)
+			if idx >= len(a) || reflectShape(li, a[idx], as) != "ptr" {
+				return ""
+			}
+		}
+		return "ptr"
+	}
+	return ""
+}
+
+// reflectRootsAllExported: f is reached (through module calls) only with reflect values rooted at
+// reflect.ValueOf(x) for x of type *config.Config, and every struct in Config's tree — descending
+// through struct-typed fields and stopping at the ConfigProp leaves — has exported fields only.
+func reflectRootsAllExported(li *LockInfo, f *ssa.Function) bool {
+	// roots: walk callers until functions that call reflect.ValueOf
+	seen := map[*ssa.Function]bool{}
+	okRoots := true
+	nRoots := 0
+	var up func(g *ssa.Function, d int)
+	up = func(g *ssa.Function, d int) {
+		if seen[g] || d > 6 {
+			return
+		}
+		seen[g] = true
+		hasReflectParam := false
+		for _, p := range g.Params {
+			if p.Type().String() == "reflect.Value" {
+				hasReflectParam = true
+			}
+		}
+		eachCall(g, func(call ssa.CallInstruction, n string) {
+			if n != "reflect.ValueOf" {
+				return
+			}
+			nRoots++
+			mi, ok := call.Common().Args[0].(*ssa.MakeInterface)
+			if !ok || mi.X.Type().String() != "*reservoir/config.Config" {
+				okRoots = false
+			}
+		})
+		if hasReflectParam {
+			if len(li.Callers[g]) == 0 {
+				okRoots = false
+			}
+			for _, cs := range li.Callers[g] {
+				up(cs.caller, d+1)
+			}
+		}
+	}
+	up(f, 0)
+	if !okRoots || nRoots == 0 {
+		return false
+	}
+	pkg := li.c.SSAPkg["reservoir/config"]
+	if pkg == nil {
+		return false
+	}
+	obj := pkg.Pkg.Scope().Lookup("Config")
+	if obj == nil {
+		return false
+	}
+	all := true
+	visited := map[types.Type]bool{}
+	var walk func(t types.Type)
+	walk = func(t types.Type) {
+		if visited[t] {
+			return
+		}
+		visited[t] = true
+		if n, ok := t.(*types.Named); ok && n.Obj().Name() == "ConfigProp" {
+			return // leaf: handled through the StagedConfigProp interface, never descended into
+		}
+		st, ok := t.Underlying().(*types.Struct)
+		if !ok {
+			return
+		}
+		for i := 0; i < st.NumFields(); i++ {
+			fld := st.Field(i)
+			if !fld.Exported() {
+				all = false
+			}
+			walk(fld.Type())
+		}
+	}
+	walk(obj.Type())
+	return all
 }
